@@ -31,7 +31,12 @@ package parser
 
 //@ func (*Parser).expectedError
 //@   inherit
+//@   requires @C11 !msgctx(expected)
 //@   ensures result != nil
+
+//@ func (*Parser).parseGroupingExpressionList
+//@   inherit
+//@   requires @C11 !msgctx(keyword)
 
 //@ func (*Parser).parseWithStatement
 //@   inherit
